@@ -61,7 +61,9 @@ class SnarkjsProve(_Backend):
     fprops = ("C10", "C18")
     # "the recorded witness" of C01 and C04 is, in the end, the witness file of the default backend: what a reported
     # value is congruent to must be what the prover is given
-    interface_for = ("C01", "C04")
+    # ... and the system a dishonest prover has to satisfy (C02) is the one in the circuit file: a coefficient written
+    # differently from the one the library computed with ties a result to its operands through another relation
+    interface_for = ("C01", "C02", "C04")
 
     def configs(self, tier):
         shapes = [
